@@ -19,20 +19,22 @@ precisions below 2³², and a fill that `parse` can produce in that combination 
 character in front of an alignment, `0` in front of a width, a lone fill, a multi-code-point
 cluster not starting with a character `parse` claims) — every fill character or cluster, every
 alignment, width, precision and representation — re-rendering the options and parsing the result
-gives the same options. `g` is the grapheme length the segmenter reports for the rendered string;
-`GraphemeOk` says it sees a multi-code-point fill as one cluster.
+gives the same options. `g`, `g2` are the lengths of the first two grapheme clusters the segmenter
+reports for the rendered string; `GraphemeOk` says it sees a multi-code-point fill as one cluster and,
+when an alignment follows it, the alignment character as a cluster of its own. Since /repo 60c7e2a a
+fill cluster in front of an alignment may start with any character (`x̄<5`).
 (Before /repo 7549768 `render_format_options` dropped the representation and only the
 representation-free part held; that was finding F-C11-2.) -/
-theorem fmtopts_roundtrip (o : Opts) (g : Nat) (hwf : WF o) (hg : GraphemeOk o g) :
-    parse (render o) g = .ok o :=
-  Lemmas.roundtrip o g hwf hg
+theorem fmtopts_roundtrip (o : Opts) (g g2 : Nat) (hwf : WF o) (hg : GraphemeOk o g g2) :
+    parse (render o) g g2 = .ok o :=
+  Lemmas.roundtrip o g g2 hwf hg
 
 /-- Non-vacuity: a fill cluster of two code points, centred, width 20, precision 10, exponent. -/
 example : WF { fill := some [129782, 127997], align := .center, minWidth := some 20, precision := some 10, repr := some .expLower }
-    ∧ GraphemeOk { fill := some [129782, 127997], align := .center, minWidth := some 20, precision := some 10, repr := some .expLower } 2 := by
+    ∧ GraphemeOk { fill := some [129782, 127997], align := .center, minWidth := some 20, precision := some 10, repr := some .expLower } 2 1 := by
   decide
 
-example : parse (render { fill := some [129782, 127997], align := .center, minWidth := some 20, precision := some 10, repr := some .expLower }) 2
+example : parse (render { fill := some [129782, 127997], align := .center, minWidth := some 20, precision := some 10, repr := some .expLower }) 2 1
     = .ok { fill := some [129782, 127997], align := .center, minWidth := some 20, precision := some 10, repr := some .expLower } := by
   decide
 
@@ -45,28 +47,28 @@ example : WF { fill := some [48], minWidth := some 8, precision := some 3, repr 
 
 /-- Regression for F-C11-2: the options of `{z:x}` survive re-rendering. -/
 theorem fmtopts_hex_roundtrip :
-    parse [120] 1 = .ok { repr := some .hexLower } ∧ render { repr := some .hexLower } = [120] := by
+    parse [120] 1 0 = .ok { repr := some .hexLower } ∧ render { repr := some .hexLower } = [120] := by
   decide
 
 /-- The width bound in `WF` is needed: 2³² renders to a string `parse` rejects. -/
 theorem fmtopts_width_bound_needed :
-    parse (render { minWidth := some 4294967296 }) 1 = .error .tooLarge := by decide
+    parse (render { minWidth := some 4294967296 }) 1 1 = .error .tooLarge := by decide
 
 /-- A lone fill cannot carry a representation (`{x:_x}` is a parse error), which is why `WF`
 excludes that combination. -/
 theorem fmtopts_lone_fill_no_repr :
-    parse (render { fill := some [95], repr := some .hexLower }) 1 = .error (.unexpected 120) := by
+    parse (render { fill := some [95], repr := some .hexLower }) 1 1 = .error (.unexpected 120) := by
   decide
 
 /-- `fmtopts_parse_wf`: every option set `parse` returns — for every format string and every
 grapheme length the segmenter may report — is well-formed. So `WF` in `fmtopts_roundtrip` excludes
 nothing the parser can produce. -/
-theorem fmtopts_parse_wf (s : List Nat) (g : Nat) (o : Opts) (h : parse s g = .ok o) : WF o :=
-  Lemmas.parse_wf s g o h
+theorem fmtopts_parse_wf (s : List Nat) (g g2 : Nat) (o : Opts) (h : parse s g g2 = .ok o) : WF o :=
+  Lemmas.parse_wf s g g2 o h
 
 /-- Non-vacuity: inputs that walk through every arm (`_<08.3x`: fill, alignment, zero fill
 overriding the fill, width, precision, representation). -/
-example : parse [95, 60, 48, 56, 46, 51, 120] 1
+example : parse [95, 60, 48, 56, 46, 51, 120] 1 1
     = .ok { fill := some [48], align := .left, minWidth := some 8, precision := some 3, repr := some .hexLower } := by
   decide
 
@@ -74,39 +76,39 @@ example : parse [95, 60, 48, 56, 46, 51, 120] 1
 source, render them, and the result is parsed again — gives the same options, for EVERY format
 string the parser accepts (clause (2) of the property for format options, proved rather than
 tested). -/
-theorem fmtopts_reparse_stable (s : List Nat) (g g' : Nat) (o : Opts)
-    (h : parse s g = .ok o) (hg : GraphemeOk o g') : parse (render o) g' = .ok o :=
-  Lemmas.roundtrip o g' (Lemmas.parse_wf s g o h) hg
+theorem fmtopts_reparse_stable (s : List Nat) (g g2 g' g2' : Nat) (o : Opts)
+    (h : parse s g g2 = .ok o) (hg : GraphemeOk o g' g2') : parse (render o) g' g2' = .ok o :=
+  Lemmas.roundtrip o g' g2' (Lemmas.parse_wf s g g2 o h) hg
 
 /-- `fmtopts_render_idempotent`: formatting a second time leaves the option text unchanged
 (clause (5) for format options): `render (parse (render (parse s))) = render (parse s)`. -/
-theorem fmtopts_render_idempotent (s : List Nat) (g g' : Nat) (o : Opts)
-    (h : parse s g = .ok o) (hg : GraphemeOk o g') :
-    ∃ o', parse (render o) g' = .ok o' ∧ render o' = render o :=
-  ⟨o, fmtopts_reparse_stable s g g' o h hg, rfl⟩
+theorem fmtopts_render_idempotent (s : List Nat) (g g2 g' g2' : Nat) (o : Opts)
+    (h : parse s g g2 = .ok o) (hg : GraphemeOk o g' g2') :
+    ∃ o', parse (render o) g' g2' = .ok o' ∧ render o' = render o :=
+  ⟨o, fmtopts_reparse_stable s g g2 g' g2' o h hg, rfl⟩
 
 /-- `fmtopts_render_injective`: two well-formed option sets with the same rendering are equal —
 no two meanings share a canonical spelling. -/
-theorem fmtopts_render_injective (o₁ o₂ : Opts) (g : Nat) (h₁ : WF o₁) (h₂ : WF o₂)
-    (hg₁ : GraphemeOk o₁ g) (hg₂ : GraphemeOk o₂ g) (h : render o₁ = render o₂) : o₁ = o₂ := by
-  have e₁ := Lemmas.roundtrip o₁ g h₁ hg₁
-  have e₂ := Lemmas.roundtrip o₂ g h₂ hg₂
+theorem fmtopts_render_injective (o₁ o₂ : Opts) (g g2 : Nat) (h₁ : WF o₁) (h₂ : WF o₂)
+    (hg₁ : GraphemeOk o₁ g g2) (hg₂ : GraphemeOk o₂ g g2) (h : render o₁ = render o₂) : o₁ = o₂ := by
+  have e₁ := Lemmas.roundtrip o₁ g g2 h₁ hg₁
+  have e₂ := Lemmas.roundtrip o₂ g g2 h₂ hg₂
   rw [h] at e₁
   rw [e₁] at e₂
   exact Except.ok.inj e₂
 
 /-- `fmtopts_canonical_fixpoint`: on canonical strings (`render o`, `o` well-formed) `render ∘ parse`
 is the identity. -/
-theorem fmtopts_canonical_fixpoint (o : Opts) (g : Nat) (hwf : WF o) (hg : GraphemeOk o g) :
-    (parse (render o) g).map render = .ok (render o) := by
-  rw [Lemmas.roundtrip o g hwf hg]
+theorem fmtopts_canonical_fixpoint (o : Opts) (g g2 : Nat) (hwf : WF o) (hg : GraphemeOk o g g2) :
+    (parse (render o) g g2).map render = .ok (render o) := by
+  rw [Lemmas.roundtrip o g g2 hwf hg]
   rfl
 
 /-- When the fill is at most one code point the segmenter hypothesis is vacuous. -/
-theorem fmtopts_reparse_stable_simple (s : List Nat) (g g' : Nat) (o : Opts)
-    (h : parse s g = .ok o) (hf : ∀ f, o.fill = some f → f.length ≤ 1) :
-    parse (render o) g' = .ok o := by
-  apply fmtopts_reparse_stable s g g' o h
+theorem fmtopts_reparse_stable_simple (s : List Nat) (g g2 g' g2' : Nat) (o : Opts)
+    (h : parse s g g2 = .ok o) (hf : ∀ f, o.fill = some f → f.length ≤ 1) :
+    parse (render o) g' g2' = .ok o := by
+  apply fmtopts_reparse_stable s g g2 g' g2' o h
   unfold GraphemeOk graphemeOk
   cases hfl : o.fill with
   | none => rfl
@@ -115,6 +117,17 @@ theorem fmtopts_reparse_stable_simple (s : List Nat) (g g' : Nat) (o : Opts)
     | [], _ => rfl
     | [_], _ => rfl
     | _ :: _ :: _, hl => simp at hl
+
+/-- Regression for C15's parser fix 60c7e2a: a fill cluster that starts with a representation letter
+(`x̄` = `x` + U+0304) in front of an alignment is the fill — before the fix `x` was read as the hex
+representation and the combining mark was an unexpected token — and it survives re-rendering. -/
+theorem fmtopts_cluster_fill :
+    parse [120, 772, 60, 53] 2 1 = .ok { fill := some [120, 772], align := .left, minWidth := some 5 }
+      ∧ WF { fill := some [120, 772], align := .left, minWidth := some 5 }
+      ∧ render { fill := some [120, 772], align := .left, minWidth := some 5 } = [120, 772, 60, 53]
+      -- an alignment character that carries a combining mark (second cluster of two code points)
+      -- still goes through the per-character arms
+      ∧ parse [120, 772, 60, 772, 53] 2 2 = .error (.unexpected 772) := by decide
 
 /-! ## `source_slice` (since /repo b1042e7: token-boundary table, column arithmetic as fallback) -/
 
